@@ -229,17 +229,35 @@ func c08(r *rep.Run) {
 		"scheduling points inside Compile exist only where it calls back into the environment (stateless operator during folding); the rest is covered by the race pass"}
 
 	// isolated results: each (config, source) compiled first on fresh configs
+	// IN A FRESH PROCESS (state that Compile might keep at package level
+	// cannot be reset from inside, so an in-process baseline would inherit it)
 	nC := 3
 	iso := make([][]string, nC)
 	for ci := 0; ci < nC; ci++ {
 		iso[ci] = make([]string, len(c8Sources))
-		for si, src := range c8Sources {
-			en := &c8env{}
-			cfgs := c8Configs(en)
-			e, err := c8Compile(cfgs[ci], src)
-			iso[ci][si] = c8Result(e, err)
+	}
+	type isoJob struct{ ci, si int }
+	var isoJobs []isoJob
+	for ci := 0; ci < nC; ci++ {
+		for si := range c8Sources {
+			isoJobs = append(isoJobs, isoJob{ci, si})
 		}
 	}
+	isoFailed := int64(0)
+	r.ParallelFor(len(isoJobs), func(w, j int) {
+		ci, si := isoJobs[j].ci, isoJobs[j].si
+		out, err := exec.Command(os.Args[0], "c08iso", fmt.Sprint(ci), fmt.Sprint(si)).Output()
+		if err != nil {
+			atomic.AddInt64(&isoFailed, 1)
+			// fall back to the in-process baseline
+			cfgs := c8Configs(&c8env{})
+			e, cerr := c8Compile(cfgs[ci], c8Sources[si])
+			iso[ci][si] = c8Result(e, cerr)
+			return
+		}
+		iso[ci][si] = string(out)
+	})
+	r.Cov["isolated_baselines_from_fresh_processes"] = int64(len(isoJobs)) - isoFailed
 	distinct := map[string]bool{}
 	for _, row := range iso {
 		for _, s := range row {
@@ -336,6 +354,17 @@ func c08(r *rep.Run) {
 
 	c08Race(r)
 	r.Finish()
+}
+
+// C08IsoMain: `check c08iso <config> <source>` — one Compile in this (fresh)
+// process, result printed on stdout.
+func C08IsoMain(args []string) {
+	var ci, si int
+	fmt.Sscan(args[0], &ci)
+	fmt.Sscan(args[1], &si)
+	cfgs := c8Configs(&c8env{})
+	e, err := c8Compile(cfgs[ci], c8Sources[si])
+	fmt.Print(c8Result(e, err))
 }
 
 // ---- copy independence ----
